@@ -1,6 +1,7 @@
 package mxj
 
 import (
+	"encoding/xml"
 	"io"
 )
 
@@ -11,6 +12,8 @@ func init() {
 	vHarnesses["H_C13_getjson"] = H_C13_getjson
 	vHarnesses["H_C13_handlers"] = H_C13_handlers
 	vHarnesses["H_C13_handlers_raw"] = H_C13_handlers_raw
+	vHarnesses["H_C13_stalls"] = H_C13_stalls
+	vHarnesses["H_C13_charset"] = H_C13_charset
 }
 
 func vNondetSched(data []byte) *vSchedReader {
@@ -363,4 +366,113 @@ func H_C13_handlers_raw() {
 		vAssert(len(cat) <= len(stream) && stream[:len(cat)] == cat, "raw handlers: raw values concatenate to a prefix of the stream")
 	}
 	vCover("raw")
+}
+
+// vStallReader delivers one byte per successful Read and returns (0, nil) k times before each
+// of them: legal for an io.Reader, and never many empty reads in a row
+type vStallReader struct {
+	b       []byte
+	i, k, c int
+}
+
+func (r *vStallReader) Read(p []byte) (int, error) {
+	if r.i >= len(r.b) {
+		return 0, io.EOF
+	}
+	if len(p) == 0 {
+		return 0, nil
+	}
+	if r.c < r.k {
+		r.c++
+		return 0, nil
+	}
+	r.c = 0
+	p[0] = r.b[r.i]
+	r.i++
+	return 1, nil
+}
+
+// long documents and long blank runs through a reader that stalls before every byte: the
+// total number of empty reads is large, the number in a row is small
+func H_C13_stalls() {
+	vResetDecOpts()
+	k := 1 + vChoose(2)
+	long := ""
+	for i := 0; i < 110; i++ {
+		long += "x"
+	}
+	gap := ""
+	for i := 0; i < 60; i++ {
+		gap += []string{" ", "\n"}[i%2]
+	}
+	form := vChoose(4)
+	switch form {
+	case 0, 1:
+		rd := &vStallReader{b: []byte("{\"a\":\"" + long + "\"}" + gap + "{\"b\":\"" + vNondetString(1, 1, "yz") + "\"}"), k: k}
+		var m1, m2 Map
+		var e1, e2, e3 error
+		if form == 0 {
+			m1, e1 = NewMapJsonReader(rd)
+			m2, e2 = NewMapJsonReader(rd)
+			_, e3 = NewMapJsonReader(rd)
+		} else {
+			m1, _, e1 = NewMapJsonReaderRaw(rd)
+			m2, _, e2 = NewMapJsonReaderRaw(rd)
+			_, _, e3 = NewMapJsonReaderRaw(rd)
+		}
+		vAssert(e1 == nil && m1["a"] == long, "stalls: a long JSON document is read through a stalling reader")
+		_, hasB := m2["b"]
+		vAssert(e2 == nil && hasB && len(m2) == 1, "stalls: the document after a long blank run is read")
+		vAssert(e3 == io.EOF, "stalls: then io.EOF")
+		vCover("json")
+	default:
+		rd := &vStallReader{b: []byte("<a>" + long + "</a>" + gap + "<b>" + vNondetString(1, 1, "yz") + "</b>"), k: k}
+		var m1, m2 Map
+		var e1, e2, e3 error
+		if form == 2 {
+			m1, e1 = NewMapXmlReader(rd)
+			m2, e2 = NewMapXmlReader(rd)
+			_, e3 = NewMapXmlReader(rd)
+		} else {
+			m1, _, e1 = NewMapXmlReaderRaw(rd)
+			m2, _, e2 = NewMapXmlReaderRaw(rd)
+			_, _, e3 = NewMapXmlReaderRaw(rd)
+		}
+		vAssert(e1 == nil && m1["a"] == long, "stalls: a long XML document is read through a stalling reader")
+		_, hasB := m2["b"]
+		vAssert(e2 == nil && hasB && len(m2) == 1, "stalls: the document after a long blank run is read")
+		vAssert(e3 == io.EOF, "stalls: then io.EOF")
+		vCover("xml")
+	}
+}
+
+// a CustomDecoder with a CharsetReader is honoured by the reader forms exactly as by the byte forms
+func H_C13_charset() {
+	vResetDecOpts()
+	CustomDecoder = &xml.Decoder{CharsetReader: func(label string, in io.Reader) (io.Reader, error) { return in, nil }}
+	doc := []byte("<?xml version=\"1.0\" encoding=\"ISO-8859-1\"?><a>" + vNondetString(1, 1, "xy") + "</a>")
+	var m1, m2 map[string]interface{}
+	var e1, e2 error
+	switch vChoose(3) {
+	case 0:
+		var a, b Map
+		a, e1 = NewMapXml(doc)
+		b, e2 = NewMapXmlReader(vNondetSched(doc))
+		m1, m2 = a, b
+	case 1:
+		var a, b Map
+		a, e1 = NewMapXml(doc)
+		b, _, e2 = NewMapXmlReaderRaw(vNondetSched(doc))
+		m1, m2 = a, b
+	default:
+		var a, b MapSeq
+		a, e1 = NewMapXmlSeq(doc)
+		b, e2 = NewMapXmlSeqReader(vNondetSched(doc))
+		m1, m2 = a, b
+	}
+	CustomDecoder = nil
+	// (the sequence decoder hands out the XML declaration first, with its documented no-root error)
+	vAssert(e1 == nil || e1 == NoRoot, "charset: the byte form decodes a document that declares another encoding when a CharsetReader is configured")
+	vAssert(e2 == e1 && vDeepEq(m1, m2), "charset: the reader form returns the same Map (and the same no-root indication) as the byte form")
+	vCover("charset")
 }
